@@ -422,6 +422,11 @@ class Runner:
             j = (ncorpus + i * 7) % len(cases)
             self.samples.append({"suite": suite.name, "case": cases[j], "impl": outs[j],
                                  "agrees_with_model": j not in bad})
+        if getattr(suite, "monitor_all", False) and suite.has_py_property:
+            # the property monitor also runs where model and implementation agree (it is independent of the model)
+            mon = [i for i in range(len(cases)) if i not in set(bad) and suite.py_property(cases[i], outs[i])]
+            self.dist[f"{suite.name}.monitor"]["evaluated-on-every-case"] += len(cases)
+            bad = sorted(set(bad) | set(mon))
         if not bad:
             return
         # disagreement(s): decide whether the property fails on the implementation's output
